@@ -23,8 +23,11 @@ type host struct {
 	v1ok  bool // v1 transactions and supplements allowed in the child block
 	v2ok  bool // v2 transactions allowed in the child block
 	blk   *types.Block
-	blk2  *types.Block // carrier with two v1 transactions (placement probes)
-	tr    *truth       // what the history really holds: the source of the genuine copy in placement probes
+	blk2  *types.Block           // carrier with two v1 transactions (placement probes)
+	forms map[string]*carrierBlk // carrier blocks of the other forms (nil entry: not a valid block in this state)
+	fund  *types.SiacoinElement  // a genuine spendable element (for the carrier that holds one valid v2 transaction)
+	post  *host                  // the same accumulator in a state after RequireHeight (synthetic forests)
+	tr    *truth                 // what the history really holds: the source of the genuine copy in placement probes
 	// a genuine live v2 contract per proof height (parents for storage proofs that carry a probed chain index)
 	proofParents map[uint64]*[2]*types.V2FileContractElement // [0]: contract with a non-empty file, [1]: with an empty file
 	alt          altValues
@@ -63,6 +66,11 @@ func newHost(cs consensus.State, K *chain.Keyring, salt uint64) *host {
 
 // seal builds a block on cs with correct miner payout, commitment and proof of work.
 func seal(cs consensus.State, miner types.Address, v1 []types.Transaction, v2 []types.V2Transaction) types.Block {
+	return sealV2(cs, miner, v1, v2, cs.Index.Height+1 >= cs.Network.HardforkV2.AllowHeight)
+}
+
+// sealV2: withV2 decides whether the block carries V2 block data.
+func sealV2(cs consensus.State, miner types.Address, v1 []types.Transaction, v2 []types.V2Transaction, withV2 bool) types.Block {
 	child := cs.Index.Height + 1
 	pay := cs.BlockReward()
 	for _, t := range v1 {
@@ -78,7 +86,7 @@ func seal(cs consensus.State, miner types.Address, v1 []types.Transaction, v2 []
 		ts = cs.PrevTimestamps[0].Add(10 * time.Minute)
 	}
 	b := types.Block{ParentID: cs.Index.ID, Timestamp: ts, MinerPayouts: []types.SiacoinOutput{{Address: miner, Value: pay}}, Transactions: v1}
-	if child >= cs.Network.HardforkV2.AllowHeight {
+	if withV2 {
 		b.V2 = &types.V2BlockData{Height: child, Transactions: v2}
 		b.V2.Commitment = cs.Commitment(miner, b.Transactions, b.V2Transactions())
 	}
@@ -193,6 +201,90 @@ func (h *host) askSupp(e elem, list string) (member bool, err error, pan any) {
 	}
 	_, pan = vlib.Recover(func() { err = consensus.ValidateBlock(h.cs, *blk, bs) })
 	return err == nil, err, pan
+}
+
+// The forms of a block whose supplement can carry v1 parents (Membership!Forms). Whatever the form, the
+// supplement is acceptable iff every supplied element is a member -- and from RequireHeight on only
+// the empty supplement is.
+var carrierForms = []string{"v1-txns-no-v2-data", "v1-no-txns", "v2-data-no-txns", "v2-data-one-v2-txn", "v2-data-v1-txns"}
+
+type carrierBlk struct {
+	blk types.Block
+	nTx int // v1 transactions (= transaction supplements)
+}
+
+// defaultForm is the form of carrier() / carrier2() in this state.
+func (h *host) defaultForm() string {
+	if h.v2ok {
+		return "v2-data-v1-txns"
+	}
+	return "v1-txns-no-v2-data"
+}
+
+// form builds the carrier block of the given form and makes sure the real code accepts it with an
+// empty supplement (otherwise the form does not exist in this state: nil).
+func (h *host) form(name string) *carrierBlk {
+	if cb, ok := h.forms[name]; ok {
+		return cb
+	}
+	if h.forms == nil {
+		h.forms = map[string]*carrierBlk{}
+	}
+	h.forms[name] = nil
+	miner := h.K.Addr("A")
+	v1 := []types.Transaction{{ArbitraryData: [][]byte{[]byte("verif C04 carrier 0")}}, {ArbitraryData: [][]byte{[]byte("verif C04 carrier 1")}}}
+	var cb carrierBlk
+	switch name {
+	case "v1-txns-no-v2-data":
+		cb = carrierBlk{sealV2(h.cs, miner, v1, nil, false), 2}
+	case "v1-no-txns":
+		cb = carrierBlk{sealV2(h.cs, miner, nil, nil, false), 0}
+	case "v2-data-no-txns":
+		if !h.v2ok {
+			return nil
+		}
+		cb = carrierBlk{sealV2(h.cs, miner, nil, nil, true), 0}
+	case "v2-data-one-v2-txn":
+		if !h.v2ok || h.fund == nil {
+			return nil
+		}
+		txn, ok := h.attack(h.cs, mkElem(h.fund), "siacoin-input")
+		if !ok {
+			return nil
+		}
+		cb = carrierBlk{sealV2(h.cs, miner, nil, []types.V2Transaction{txn}, true), 0}
+	case "v2-data-v1-txns":
+		if !h.v2ok {
+			return nil
+		}
+		cb = carrierBlk{sealV2(h.cs, miner, v1, nil, true), 2}
+	default:
+		hpanic("unknown carrier form %s", name)
+	}
+	var err error
+	if p, _ := vlib.Recover(func() {
+		err = consensus.ValidateBlock(h.cs, cb.blk, consensus.V1BlockSupplement{Transactions: make([]consensus.V1TransactionSupplement, cb.nTx)})
+	}); p || err != nil {
+		return nil
+	}
+	h.forms[name] = &cb
+	return &cb
+}
+
+// askForm: the element in one list of the supplement of a carrier of the given form (per-transaction
+// lists only where the form has v1 transactions); with a genuine copy g of the same ID before it
+// (order "g-first") or after it ("e-first") if g is given.
+func (h *host) askForm(cb *carrierBlk, e elem, g *elem, order, list string) (accepted bool, err error, pan any) {
+	bs := consensus.V1BlockSupplement{Transactions: make([]consensus.V1TransactionSupplement, cb.nTx)}
+	if g != nil && order == "g-first" {
+		h.putSupp(&bs, 0, list, *g)
+	}
+	h.putSupp(&bs, 0, list, e)
+	if g != nil && order != "g-first" {
+		h.putSupp(&bs, 0, list, *g)
+	}
+	_, pan = vlib.Recover(func() { err = consensus.ValidateBlock(h.cs, cb.blk, bs) })
+	return err == nil && pan == nil, err, pan
 }
 
 // carrier2 is a valid v1 block with two transactions: the supplement of the first can hold a genuine
@@ -566,24 +658,25 @@ type probe struct {
 }
 
 type stats struct {
-	mu         sync.Mutex
-	asks       map[string]int64            // door -> calls
-	verdicts   map[string]*[2]int64        // door(+role) -> [rejected, accepted] where expectation was met
-	kinds      map[string]map[string]int64 // door -> kind -> calls
-	muts       map[string]int64            // mutation class -> probes
-	bases      map[string]int64            // base status -> probes
-	fields     map[string]map[string]int64 // door -> kind/tpath -> decisive rejections
-	heights    map[int]int64               // proof lengths of genuine accepted members
-	maxN       uint64
-	probes     int64
-	bySrc      map[string]int64
-	ibSkipped  map[string]int64 // in-block family: states without a usable block prefix, by reason
-	ibPrefixes int64            // block prefixes built, validated and applied
-	ibClasses  map[string]int64 // door/id source/contents class -> probes
-	distinct   []uint64         // fingerprints of (accumulator, presented leaf, index, proof, flag) tuples over non-empty accumulators (deduplicated at the end)
-	nondec     map[string]int64 // v2txn role -> probes whose control did not pass
-	suppErr    map[string]int64
-	samples    int
+	mu          sync.Mutex
+	asks        map[string]int64            // door -> calls
+	verdicts    map[string]*[2]int64        // door(+role) -> [rejected, accepted] where expectation was met
+	kinds       map[string]map[string]int64 // door -> kind -> calls
+	muts        map[string]int64            // mutation class -> probes
+	bases       map[string]int64            // base status -> probes
+	fields      map[string]map[string]int64 // door -> kind/tpath -> decisive rejections
+	heights     map[int]int64               // proof lengths of genuine accepted members
+	maxN        uint64
+	probes      int64
+	bySrc       map[string]int64
+	ibSkipped   map[string]int64 // in-block family: states without a usable block prefix, by reason
+	postGenuine int64            // genuine live contracts presented after RequireHeight (must be refused too)
+	ibPrefixes  int64            // block prefixes built, validated and applied
+	ibClasses   map[string]int64 // door/id source/contents class -> probes
+	distinct    []uint64         // fingerprints of (accumulator, presented leaf, index, proof, flag) tuples over non-empty accumulators (deduplicated at the end)
+	nondec      map[string]int64 // v2txn role -> probes whose control did not pass
+	suppErr     map[string]int64
+	samples     int
 }
 
 func newStats() *stats {
@@ -842,6 +935,80 @@ func judge(c *vlib.Ctx, st *stats, h *host, p probe, o judgeOpts) {
 					extra = " (" + err.Error() + ")"
 				}
 				report("supp", list, got, pan, extra)
+			}
+			st.mu.Lock()
+			st.note("supp-form", list+"@"+h.defaultForm(), k, got) // the carrier above has this form
+			st.mu.Unlock()
+		}
+	}
+	// the other forms of the carrier block (with / without v1 transactions, with / without V2 data)
+	if o.supp && h.v1ok && len(suppLists(k)) > 0 {
+		for _, fname := range carrierForms {
+			if fname == h.defaultForm() {
+				continue
+			}
+			cb := h.form(fname)
+			if cb == nil {
+				continue
+			}
+			for _, list := range suppLists(k) {
+				if list != "expiring-contract" {
+					// per-transaction lists: only forms with v1 transactions; every fourth probe and every genuine one
+					if cb.nTx == 0 || (fp%4 != 0 && !p.exp) {
+						continue
+					}
+				}
+				type ask struct {
+					g     *elem
+					order string
+					door  string
+				}
+				asks := []ask{{nil, "", "supp-form"}}
+				if genuine != nil && list == "expiring-contract" && (fp%3 == 0 || p.exp) {
+					asks = append(asks, ask{genuine, "g-first", "supp-form-placed"}, ask{genuine, "e-first", "supp-form-placed"})
+				}
+				for _, a := range asks {
+					got, err, pan := h.askForm(cb, p.e, a.g, a.order, list)
+					role := list + "@" + fname
+					if a.g != nil {
+						role = list + "/" + a.order + "@" + fname
+					}
+					st.mu.Lock()
+					st.note(a.door, role, k, got)
+					if got == p.exp && !got && p.tpath != "" {
+						st.field(a.door, k, p.tpath)
+					}
+					st.mu.Unlock()
+					if got != p.exp || pan != nil {
+						extra := " (carrier block of form " + fname + ")"
+						if err != nil {
+							extra += " (" + err.Error() + ")"
+						}
+						report(a.door, role, got, pan, extra)
+					}
+				}
+			}
+		}
+	}
+	// from RequireHeight on the supplement must be empty: any supplied element, genuine or not, is refused
+	ph := h.post
+	if ph == nil && !h.v1ok {
+		ph = h
+	}
+	if o.supp && ph != nil && k == kFC {
+		if cb := ph.form("v2-data-no-txns"); cb != nil {
+			got, err, pan := ph.askForm(cb, p.e, nil, "", "expiring-contract")
+			st.mu.Lock()
+			st.note("supp-post-require", "expiring-contract", k, got)
+			if p.exp {
+				st.postGenuine++
+			}
+			st.mu.Unlock()
+			if got || pan != nil {
+				d := "supp-post-require:expiring-contract"
+				c.Violation(fmt.Sprintf("%s/%s/%s/%s/accepted-after-require-height", d, k, p.base, mutKey),
+					fmt.Sprintf("%s: a block after RequireHeight whose supplement lists a %s v1 contract (mutation %s) as expiring was accepted (err=%v panic=%v): from RequireHeight on only the empty supplement is acceptable", d, p.base, mutKey, err, pan),
+					map[string]any{"source": p.src, "door": d, "kind": k.String(), "base": p.base, "mutation": mutKey, "element": p.e.v, "accumulator": ph.cs.Elements, "context": p.ctx})
 			}
 		}
 	}
